@@ -3,6 +3,7 @@
 //!   vh check <ID> <quick|thorough> [--replay <file>]
 //!   vh worker <ID> <tier> --seed S (--from a --to b [--trace] | --dump-case k | --replay f | --sidecar)
 
+#![allow(dead_code)]
 mod core;
 mod e2e;
 mod gen;
